@@ -336,7 +336,13 @@ func (svr *Server) Close() error {
 		svr.lntls.Close()
 	}
 
-	for _, svc := range svr.svcs {
+	// handleConnection appends to svcs under mu: take a copy under the lock
+	svr.mu.Lock()
+	svcs := make([]*service, len(svr.svcs))
+	copy(svcs, svr.svcs)
+	svr.mu.Unlock()
+
+	for _, svc := range svcs {
 		log.Tracef("Stopping service: %d", svc.id)
 		svc.stop()
 	}
@@ -530,7 +536,7 @@ func (svr *Server) getSession(svc *service, req *message.ConnectMessage, resp *m
 	// If found, return it.
 	if !req.CleanSession() {
 		// Only state kept from a CleanSession=0 connection can be resumed.
-		if sess, err := svr.sessMgr.Get(cid); err == nil && !sess.Cmsg.CleanSession() {
+		if sess, err := svr.sessMgr.Get(cid); err == nil && sess.Resumable() {
 			svc.sess = sess
 			resp.SetSessionPresent(true)
 
